@@ -41,7 +41,7 @@ inductive SigmaCls
   | descriptionError | referencesError | titleError | scopeError | licenseError
   | logsourceError | detectionError | conditionError | modifierError | regularExpressionError
   | correlationRuleError | correlationTypeError | correlationConditionError | timespanError
-  | filterError | filterConditionError | filterRuleReferenceError | collectionError
+  | filterError | filterConditionError | filterRuleReferenceError | collectionError | ruleNotFoundError
   deriving DecidableEq, Repr
 
 def SigmaCls.name : SigmaCls → String
@@ -59,6 +59,7 @@ def SigmaCls.name : SigmaCls → String
   | .timespanError => "SigmaTimespanError" | .filterError => "SigmaFilterError"
   | .filterConditionError => "SigmaFilterConditionError" | .filterRuleReferenceError => "SigmaFilterRuleReferenceError"
   | .collectionError => "SigmaCollectionError"
+  | .ruleNotFoundError => "SigmaRuleNotFoundError"
 
 def SigmaCls.all : List SigmaCls := [
   .typeError, .identifierError, .nameError, .taxonomyError, .relatedError, .levelError, .statusError,
@@ -66,7 +67,7 @@ def SigmaCls.all : List SigmaCls := [
   .descriptionError, .referencesError, .titleError, .scopeError, .licenseError,
   .logsourceError, .detectionError, .conditionError, .modifierError, .regularExpressionError,
   .correlationRuleError, .correlationTypeError, .correlationConditionError, .timespanError,
-  .filterError, .filterConditionError, .filterRuleReferenceError, .collectionError]
+  .filterError, .filterConditionError, .filterRuleReferenceError, .collectionError, .ruleNotFoundError]
 
 /-- direct base class inside the Sigma hierarchy (`none` = derives from `SigmaError` directly);
 tied to `sigma/exceptions.py` by `Oblig/C07.lean` -/
@@ -77,6 +78,7 @@ def SigmaCls.parent : SigmaCls → Option SigmaCls
   | .correlationTypeError => some .correlationRuleError
   | .correlationConditionError => some .correlationRuleError
   | .timespanError => some .correlationRuleError
+  | .ruleNotFoundError => some .correlationRuleError
   | .filterError => some .valueError
   | .filterConditionError => some .filterError
   | .filterRuleReferenceError => some .filterError
